@@ -150,6 +150,15 @@ def c02(tier):
     recs = s.execute(cases, "c02")
     rejected = s.validate(recs, "c02")
     s.report_rejected(rejected, "handler calls / errors / output differ from what the path rules of the specification allow")
+    # 4. the same library with its optional `defmt` feature enabled: a seeded part of the same cases, same specification
+    C.build_harness_defmt()
+    sub = [c for c in cases if c["kind"] in ("run", "runs")]
+    s.rng.shuffle(sub)
+    sub = sub[:6000 if tier == "quick" else 60000] + [c for c in cases if c["kind"] not in ("run", "runs")][:600 if tier == "quick" else 6000]
+    recs_d = s.execute(sub, "c02defmt", build="defmt")
+    s.cov["executions_with_defmt_feature"] = len(recs_d)
+    rejected = s.validate(recs_d, "c02defmt")
+    s.report_rejected(rejected, "with the library's defmt feature enabled: handler calls / errors / output differ from what the path rules allow")
     s.sample(recs[:2] + recs[-2:])
     s.cov["rule"] = ("histories enumerated exhaustively by TLC from a unit vocabulary (relative, absolute, common, undefined, "
                      "slot-empty, faulty units; trailing ';'; empty messages) and seeded long sessions; each executed as one run buffer, "
@@ -191,7 +200,9 @@ def replay(path):
             return 1
         print("the observed verdict is one the specification allows")
         return 0
-    recs = s.execute([case], "replay")
+    if case.get("build") == "defmt":
+        C.build_harness_defmt()
+    recs = s.execute([case], "replay", build=case.get("build"))
     if not recs:
         print("the call did not return")
         C.cleanup(s.wd)
@@ -273,13 +284,25 @@ def selftest():
         print("  %-42s %s" % (name, "rejected" if rej else "ACCEPTED (binding hole!)"))
         if not rej:
             bad += 1
+    # the implementation-shaped layer: a session whose offered room differs from the model's read_offset is accepted by the
+    # properties' relation (no property speaks of it) but must be reported as IMPL-DRIFT
+    r = copy.deepcopy(recs[2])
+    rd = [e for e in r["obs"] if e["e"] == "read"][1]
+    rd["cap"] -= 1
+    s.drift = []
+    rej = s.validate([r], "self-drift", chunk=1)
+    ok = (not rej) and len(s.drift) == 1
+    print("  %-42s %s" % ("room offered to the second read changed", "accepted, IMPL-DRIFT reported" if ok else "NOT reported as drift (binding hole!)"))
+    if not ok:
+        bad += 1
+    s.drift = []
     C.cleanup(s.wd)
     print("selftest: %d unmodified traces accepted, %d of %d mutated traces rejected" % (len(recs), len(mutants) - bad, len(mutants)))
     return 2 if bad else 0
 
 
 # ----------------------------------------------------------------------- C07
-VOCAB_FAULT = ["D", "A:B", ":C", "*X", "B:D?", "Z", "A", "D !", "A:N", "A:N 999", "A:N 'x'", "A:T 2", "A:F", "A:G?",
+VOCAB_FAULT = ["A:S \"ab\xc3\"", "A:S '\xe2\x82'", "A:E? 'x\xf0\x9f'", "D", "A:B", ":C", "*X", "B:D?", "Z", "A", "D !", "A:N", "A:N 999", "A:N 'x'", "A:T 2", "A:F", "A:G?",
                "A:N 7", "A:E? 'q'", "D \"a'b\" !", "Z \"it's\"", "A:S 'say \"hi' x", "B:D", "D?", "A:B:D", "A:R 3"]
 TINY_SIGMA = "AB:?;\n \"!"
 
@@ -351,6 +374,12 @@ def c07(tier):
                 label="MCScpiProcess(N=%d,stream<=%d)" % (N, ml), timeout=3000, heap="16g")
     s.model("MCScpiProcess", mc_proc_params("tiny", TINY_SIGMA, 4, 6, legacy='"overflow"'), expect_violation="SameCarry",
             label="MCScpiProcess legacy overflow-before-compaction")
+    # the state machine TLC explores and the function recorded sessions are compared with describe the same loop
+    tN, tL = (3, 4) if tier == "quick" else (4, 5)
+    s.model("MCScpiProcessTie", mc_proc_params("tiny", 'AB:?;\n"', tN, tL, faults=False), workers=8 if tier == "quick" else 14,
+            label="MCScpiProcessTie(N=%d,stream<=%d): MCScpiProcess = ScpiProcessImpl folded over the reads" % (tN, tL), timeout=3000)
+    s.model("MCScpiProcessTie", mc_proc_params("tiny", 'AB:?;\n"', 3, 4, legacy='"overflow"', faults=False), expect_violation="Tied",
+            label="MCScpiProcessTie legacy overflow-before-compaction (the two descriptions must disagree)")
     cases = []
     # 2a. every stream over the tiny alphabet up to a length bound, every composition, N around the length
     import itertools
@@ -523,6 +552,15 @@ def c10(tier):
         msgs = random_history(s.rng, vocab, s.rng.randint(3, 12), maxunits=3, noise=s.rng.choice([0.0, 0.3]))
         whole = "".join(msgs)
         cases.append({"kind": "failset", "iface": "main", "N": 64, "stream": b(whole), "chunks": random_chunks(s.rng, len(whole))})
+    # a payload that is still open when the buffer is full, with a line feed inside it at every position around the end of the
+    # buffer (the last byte of a full buffer is a line feed that terminates nothing), then a query that must still be answered
+    for N in (8, 16, 32):
+        for pos in range(max(7, N - 4), N + 3):
+            for head in ("A:S \"", "A:K #3999", "A:E? '"):
+                if pos <= len(head):
+                    continue
+                msg = head + "a" * (pos - len(head) - 1) + "\n" + "bbb" + ("\"" if head[-1] == '"' else "'") + "\nB:D?\nB:D?\n"
+                cases.append({"kind": "failset", "iface": "main", "N": N, "stream": b(msg), "chunks": s.rng.choice([[], [1] * len(msg), [5] * len(msg)])})
     for L in range(0, 141):
         msg = "A:E? '%s'\n" % ("a" * L)
         for N in (128, 1024):
@@ -896,7 +934,12 @@ def c12(tier):
             ("main", '1+-.Ee, \n;', 4 if tier == "quick" else 6, "A:P ", "decimal alphabet after 'A:P '"),
             ("main", '#HhBbQq1278aF, \n"', 3 if tier == "quick" else 5, "A:P ", "radix/block alphabet after 'A:P '"),
             ("main", [97, 34, 39, 10, 59, 44, 32, 35, 49, 255, 195], 4 if tier == "quick" else 5, "A:S ", "string/block alphabet incl. non-UTF-8 bytes after 'A:S '"),
-            ("main", 'A1,\n \'', 5 if tier == "quick" else 7, "A:P 1,1,1,1,1,1,1,1,1", "parameter count around MAX_ARGS")]
+            ("main", 'A1,\n \'', 5 if tier == "quick" else 7, "A:P 1,1,1,1,1,1,1,1,1", "parameter count around MAX_ARGS"),
+            # every printable punctuation byte on its own (not only the class representative '!'): a byte that today is never valid
+            # must stay so in every position, and a rejected newline-terminated input must have no accepted continuation
+            ("main", "!$%&()*+-./<=>?@[\\]^_`{|}~:;,#'\"" + "1A\n ", 2 if tier == "quick" else 3, "A:P ", "all punctuation in parameter position"),
+            ("main", "!$%&()*+-./<=>?@[\\]^_`{|}~:;,#'\"" + "1A\n ", 2 if tier == "quick" else 3, "", "all punctuation in header position"),
+            ("main", '(@1,)\n a', 4 if tier == "quick" else 6, "A:P ", "parentheses after 'A:P '")]
     raw = os.path.join(s.wd, "c12.raw")
     for (iface, sigma, L, prefix, label) in jobs:
         s.model("MCScpiSyntax", syntax_params(iface, sigma, L, prefix, starts, True), raw_replay=raw,
@@ -1069,7 +1112,8 @@ def tree_pool(tier):
     return out
 
 
-SIB_DECLS = ["DISPlay:[LAY]:TEXT", "Ab:[Bc]", "ABc:[C]?", "SYST:BEEP", "OUTPuts:COUNt?", "OUTP:ALL", "IN_SEL", "INPut:GAIN", "INIT", "IN1?", "IN_SEL?", "OUT_ENable", "OUTPut:STATe", "OUT2", "OUTA?", "MEASure?", "ME_as", "MEAN?",
+SIB_DECLS = ["TEMPERATURECelsius", "SENSe:TEMPerature:THERMOCOUPLEjk?", "*CALIBRATENOWX", "*CALIBRATENOWXYZ?", "ABCDEFGHIJKLm", "BCDEFGHIJKLMNo", "CDEFGHIJKLMNOPq?",
+             "A23456789012345678901234567890b:C23456789012345678901234567890123456789d", "DISPlay:[LAY]:TEXT", "Ab:[Bc]", "ABc:[C]?", "SYST:BEEP", "OUTPuts:COUNt?", "OUTP:ALL", "IN_SEL", "INPut:GAIN", "INIT", "IN1?", "IN_SEL?", "OUT_ENable", "OUTPut:STATe", "OUT2", "OUTA?", "MEASure?", "ME_as", "MEAN?",
              "Z_", "ZA", "Z1", "Z_A?", "SYS:IN_SEL", "SYS:INPut", "SYS:INIT?", "SYS:IN1", "SYS:OUT_ENable?", "SYS:OUTPut", "SYS:Z_", "SYS:ZA", "SYS:Z1?"]
 
 
@@ -1218,6 +1262,9 @@ def tree_check(prop, tier):
     if len(famb) != len(fixed_amb) or not all(x["ambiguous"] for x in famb):
         raise C.ToolError("the specification does not classify the fixed ambiguous pairs as ambiguous")
     emitted = [x for x in emitted if x not in famb]
+    if any(x["ambiguous"] for x in emitted):
+        raise C.ToolError("a control set of the generator is ambiguous according to the specification: %s" % [
+            [pool[i - 1] for i in x["chosen"]] for x in emitted if x["ambiguous"]][:2])
     amb_s = famb + amb_s
     # generate: control crate (must build) and ambiguous crate (every module must fail in the macro)
     descs = []
@@ -1318,6 +1365,21 @@ def tree_check(prop, tier):
             continue
         tests = sorted(x["tests"])
         s.rng.shuffle(tests)
+        # headers built only from declared short / long forms (all declared spellings are among them) always come first:
+        # in a large set the near misses outnumber them by orders of magnitude
+        forms = set()
+        for i in x["chosen"]:
+            for nm, _opt in T.parse_cmd(pool[i - 1])[0]:
+                forms.add(nm.upper())
+                forms.add("".join(ch for ch in nm if not ch.islower()).upper())
+        spelled = set()
+        for i in x["chosen"]:
+            parts = T.parse_cmd(pool[i - 1])[0]
+            alts = [[(nm.upper(),), ("".join(ch for ch in nm if not ch.islower()).upper(),)] + ([()] if opt else []) for nm, opt in parts]
+            for combo in itertools.product(*alts):
+                spelled.add(tuple(m for part in combo for m in part))
+        up = lambda p: tuple(bytes(m).decode("latin1").upper() for m in p)   # noqa: E731
+        tests.sort(key=lambda p: 0 if up(p) in spelled else 1 if all(m in forms for m in up(p)) else 2)
         decl_paths = set()
         lim = (100 if tier == "quick" else 250) if len(x["chosen"]) < 10 else (2500 if tier == "quick" else 100000)
         for p in tests[:lim]:
@@ -1900,7 +1962,7 @@ def c13(tier):
     # TraceScpi's monitors require allocs = 0 on every run / session that does not use the std writer
     writers = [{"k": "rec"}, {"k": "heapless", "cap": 64}, {"k": "heapless", "cap": 8}, {"k": "heapless", "cap": 0}, {"k": "rec", "cap": 5}]
     cases = []
-    vocab = VOCAB_FAULT + VOCAB_PATH + ["MEAS:VOLT?", "C?", "*Q?", "A:H? #15hello", "A:E? 'abc\"def'", "A:B:D?", "A:P 7,'s',#12ab", "A:S \"x\ny\"", "A:K #13a\nb"]
+    vocab = VOCAB_FAULT + VOCAB_PATH + ["MEAS:VOLT?", "C?", "*Q?", "A:H? #15hello", "A:E? 'abc\"def'", "A:B:D?", "A:P 7,'s',#12ab", "A:S \"x\ny\"", "A:K #13a\nb", "BUF?", "BUF2 9", "K2?"]
     for _ in range(600 if tier == "quick" else 6000):
         msgs = random_history(s.rng, vocab, s.rng.randint(1, 6), maxunits=3)
         whole = "".join(msgs)
